@@ -3277,8 +3277,9 @@ func (ts *TokenStore) handleRevokeOrphan(ctx context.Context, req *logical.Reque
 	}
 
 	// Do a lookup. Among other things, that will ensure that this is either
-	// running in the same namespace or a parent.
-	te, err := ts.Lookup(ctx, id)
+	// running in the same namespace or a parent. See revokeCommon for why
+	// this is a tainted lookup.
+	te, err := ts.lookupTainted(ctx, id)
 	if err != nil {
 		return nil, fmt.Errorf("error when looking up token to revoke: %w", err)
 	}
